@@ -12,6 +12,7 @@ import (
 
 	"bsim/core"
 	"bsim/model"
+	"bsim/qeval"
 	"bsim/sched"
 
 	"github.com/blevesearch/bleve/v2"
@@ -32,10 +33,11 @@ type ChaosCfg struct {
 
 // ChaosOp is one client operation.
 type ChaosOp struct {
-	K    string `json:"k"` // index delete batch search searchdl doc count dict stats merge copy pause
-	ID   int    `json:"id,omitempty"`
-	N    int    `json:"n,omitempty"`
-	DlMS int    `json:"dl_ms,omitempty"`
+	K    string   `json:"k"` // index delete batch search searchdl doc count dict stats merge copy pause
+	ID   int      `json:"id,omitempty"`
+	N    int      `json:"n,omitempty"`
+	DlMS int      `json:"dl_ms,omitempty"`
+	Q    *qeval.Q `json:"q,omitempty"` // searchq: a query tree from the C02 family (compound searchers, filters, multi-term leaves)
 }
 
 // ChaosWL is the workload.
@@ -72,8 +74,17 @@ func genChaos(c *core.Ctx) (ChaosCfg, ChaosWL) {
 		}
 		var ops []ChaosOp
 		for j := 0; j < n; j++ {
-			k := []string{"index", "index", "delete", "batch", "batch", "search", "search", "searchdl", "doc", "count", "dict", "stats", "merge", "copy", "pause", "searchall"}[g.Intn(16)]
-			ops = append(ops, ChaosOp{K: k, ID: g.Intn(cfg.NIDs), N: 1 + g.Intn(5), DlMS: []int{0, 1, 10, 1000}[g.Intn(4)]})
+			k := []string{"index", "index", "delete", "batch", "batch", "search", "search", "searchdl", "doc", "count", "dict", "stats", "merge", "copy", "pause", "searchall", "searchq", "searchq"}[g.Intn(18)]
+			op := ChaosOp{K: k, ID: g.Intn(cfg.NIDs), N: 1 + g.Intn(5), DlMS: []int{0, 1, 10, 1000}[g.Intn(4)]}
+			if k == "searchq" {
+				var ids []string
+				for d := 0; d < cfg.NIDs; d++ {
+					ids = append(ids, fmt.Sprintf("d%02d", d))
+				}
+				q := qeval.Gen(g, 2, ids, false)
+				op.Q = &q
+			}
+			ops = append(ops, op)
 		}
 		total += n
 		wl.Clients = append(wl.Clients, ops)
@@ -205,9 +216,13 @@ func chaosScenario(c *core.Ctx) {
 						}
 					}
 					err = idx.Batch(b)
-				case "search", "searchall", "searchdl":
+				case "search", "searchall", "searchdl", "searchq":
 					var q = bleve.NewSearchRequest(bleve.NewPrefixQuery("ca"))
-					if op.K == "searchall" || cfg.Big > 0 {
+					if op.K == "searchq" && op.Q != nil {
+						q = bleve.NewSearchRequest(op.Q.Bleve())
+						q.Size = 3 // small pages: the searchers are closed before they are exhausted
+						c.Probe("search_query_family")
+					} else if op.K == "searchall" || cfg.Big > 0 {
 						q = bleve.NewSearchRequest(bleve.NewMatchAllQuery())
 					}
 					ctx, cancel := context.WithCancel(context.Background())
@@ -393,6 +408,7 @@ func chaosScenario(c *core.Ctx) {
 	}
 	if g := bleveGoroutines(); g != "" {
 		c.Violate("goroutine-leak", engSig, s.Steps, "goroutines with index frames remain after Close:\n%s", g)
+		c.TolerateLeak = true // they are still there when the bubble ends; the violation is the report
 	}
 	c.Res.NonTrivial = calls > 5 && closeInvoked >= 0
 	c.Res.Summary = fmt.Sprintf("engine=%s/%s clients=%d calls=%d close@%d..%d twoClosers=%v cancels=%d steps=%d", cfg.Index.Engine, cfg.Index.KV, len(wl.Clients), calls, closeInvoked, closeReturned, cfg.CloseTwo, len(cancelLog), s.Steps)
